@@ -27,7 +27,7 @@ META = {
         'quick': 'match_order: every pair of order kinds (number, >^k, <^k, *^k, k<=3) with all resids and numeric '
                  'orders unbounded integers; DoLinks: molecules of 3-4 two-bead residues (linear+disulfide, branched, '
                  'ring), link lists of 1-3 of 11 toy links (incl. a star-shaped link with three distinct symbolic orders), all resids unbounded integers',
-        'thorough': 'all 11 toy links in two orders on each molecule, plus every ordered pair of neighbouring links',
+        'thorough': 'all 11 toy links in two orders on each molecule, plus every pair of neighbouring links in reversed order',
     },
     'stubs': ['vermouth.processors.do_links.sign (numpy) -> (x>0)-(x<0): numpy concretises symbolic ints'],
     'assumptions': ['floats are modelled as reals by the engine (only float(int) integrality tests occur; exact for |n| < 2**53); numeric link orders |n| <= 8',
@@ -495,7 +495,7 @@ def cases(tier):
     if tier == 'quick':
         link_sets = [[0, 1, 3], [2, 4, 0], [5, 6, 0], [7, 8, 9]]
     else:
-        link_sets = [list(range(NLINKS)), list(range(NLINKS))[::-1]] + [[i, i + 1] for i in range(NLINKS - 1)] + [[i + 1, i] for i in range(NLINKS - 1)]
+        link_sets = [list(range(NLINKS)), list(range(NLINKS))[::-1]] + [[i + 1, i] for i in range(NLINKS - 1)]
     windows = [(None, -2), (-1, -1), (0, 0), (1, 1), (2, None)]
     if tier == 'quick':
         combos = [('lin4', [0, 1, 3]), ('lin4', [5, 6, 0]), ('branch4', [2, 4, 0]), ('branch4', [7, 8, 9]), ('branch4', [10, 0]), ('ring3', [10]),
